@@ -2,6 +2,7 @@ import LdkModel.Props.C14
 #print axioms Ldk.C14.build_rejects_oversize
 #print axioms Ldk.C14.build_length
 #print axioms Ldk.C14.peel_build
+#print axioms Ldk.C14.peel_build_unconditional
 #print axioms Ldk.C14.peel_build_one_hop
 #print axioms Ldk.C14.bigSizeFrame_wellFramed
 #print axioms Ldk.C14.bigSizeFrame_wellFramed_u16
